@@ -75,6 +75,24 @@ func genC02(t *rapid.T) c02Scenario {
 	sc := c02Scenario{Retention: rapid.SampledFrom([]int{60, 600, 7200}).Draw(t, "ret")}
 	n := rapid.IntRange(4, 30).Draw(t, "nops")
 	created := 0
+	if rapid.IntRange(0, 4).Draw(t, "postponed") == 0 {
+		// a pending window that is postponed in place on the peer, while the update reaches A only after the original
+		// window is over there (and A's per-alert caches have seen it end); it must mute when the new window starts
+		st := rapid.SampledFrom([]int{30, 120}).Draw(t, "ppStart")
+		ln := rapid.SampledFrom([]int{20, 60}).Draw(t, "ppLen")
+		later := st + ln + rapid.SampledFrom([]int{60, 200}).Draw(t, "ppLater")
+		sc.Ops = append(sc.Ops,
+			c02Op{Kind: "new", On: "A", Sets: genC02Sets(t), StartOff: st, EndOff: st + ln},
+			c02Op{Kind: "edit", On: "B", Sil: 0, MoveStart: true, StartOff: later, EndOff: later + 60, Comment: "c1"},
+			c02Op{Kind: "mutes"},
+			c02Op{Kind: "advance", Dt: st + ln + 10},
+			c02Op{Kind: "mutes"},
+			c02Op{Kind: "deliver", Msg: 0, All: rapid.Bool().Draw(t, "ppAll")},
+			c02Op{Kind: "mutes"},
+			c02Op{Kind: "advance", Dt: later - (st + ln + 10) + 5},
+			c02Op{Kind: "mutes"})
+		created = 2 // the edit may replace
+	}
 	for i := 0; i < n; i++ {
 		k := rapid.IntRange(0, 19).Draw(t, "op")
 		if created == 0 {
@@ -439,7 +457,7 @@ func c02Matches(s *pb.Silence, ls map[string]string, reByText map[string]*ref.Re
 func TestC02Silencer(t *testing.T) {
 	pbt.Run(t, pbt.Spec[c02Scenario]{
 		Property: "C02", Name: "C02Silencer",
-		Rule: "histories of 4-30 ops over one Silences+Silencer (warm cache kept) and a peer that authors replicated versions: new (pending/active, 1-2 OR-ed matcher sets, all operators incl. regex ASTs), edit (in place or replacing), expire, deliver (late/duplicated/out-of-order single updates or the peer's full state), GC, alert-GC (PostGC), snapshot+reload, advance 1s-67min, mutes. Oracle after every mutes, for all 64 label sets of the universe, queried twice: verdict and SilencedBy ids equal a direct evaluation of Query() (all stored silences) with reference matcher semantics and start <= now <= end. Non-trivial: a merge changed the store or a GC/reload happened, and some verdict changed between queries.",
+		Rule: "histories of 4-30 ops (one in five after a prefix in which a pending window is postponed in place on the peer and that update reaches this instance only after the original window is over) over one Silences+Silencer (warm cache kept) and a peer that authors replicated versions: new (pending/active, 1-2 OR-ed matcher sets, all operators incl. regex ASTs), edit (in place or replacing), expire, deliver (late/duplicated/out-of-order single updates or the peer's full state), GC, alert-GC (PostGC), snapshot+reload, advance 1s-67min, mutes. Oracle after every mutes, for all 64 label sets of the universe, queried twice: verdict and SilencedBy ids equal a direct evaluation of Query() (all stored silences) with reference matcher semantics and start <= now <= end. Non-trivial: a merge changed the store or a GC/reload happened, and some verdict changed between queries.",
 		Gen:  genC02, Exec: execC02,
 	})
 }
